@@ -18,6 +18,10 @@ class Boom(Exception):
     pass
 
 
+class Abort(BaseException):
+    """What a user interrupt looks like (KeyboardInterrupt-style: not derived from Exception)."""
+
+
 def build(cad, gname, ordered=False, **kw):
     g = inj.GEOMS[gname]
     F, asc = cad["F"], cad["asc"]
@@ -43,27 +47,31 @@ def check(rec, gname, ordered=False):
     frames, c = build(cad, gname, ordered)
     ts0 = [f.ts.copy() for f in frames]
     t00 = [f.t_start for f in frames]
-    sub = select(c, rec["sel"])
-    first = frames[rec["members"][0] - 1]
     geo0 = {"F": cad["F"], "T": max(cad["T"]), "asc": cad["asc"]}
     path, tp, fprof, bp, bnd = inj.components(sig, geo0, gname)
     calls = [0]
+    exc_cls = Abort if (len(cad["starts"]) + rec["raiseAt"]) % 2 else Boom
+    armed = [False]
 
     def path_wrapped(t):
         calls[0] += 1
-        if rec["raiseAt"] and calls[0] == rec["raiseAt"]:
-            raise Boom("user callback failed")
+        if armed[0] and rec["raiseAt"] and calls[0] == rec["raiseAt"]:
+            raise exc_cls("user callback failed")
         return path(t)
     kw = dict(integrate_path=sig["iP"], integrate_t_profile=sig["iT"], integrate_f_profile=sig["iF"],
               doppler_smearing=sig["smear"] != 0, t_subsamples=sig["tsub"], f_subsamples=sig["fsub"],
               smearing_subsamples=max(sig["smear"], 1))
     raised = False
-    try:
-        sub.add_signal(path_wrapped, tp, fprof, bp, **kw)
-    except Boom:
-        raised = True
-    except Exception as e:
-        raise Div("exception", "ok" if not rec["raised"] else "Boom", "%s: %s" % (type(e).__name__, e))
+    for r, sel in enumerate(rec["sels"]):
+        sub = select(c, sel)
+        calls[0] = 0
+        armed[0] = (r == len(rec["sels"]) - 1)
+        try:
+            sub.add_signal(path_wrapped, tp, fprof, bp, **kw)
+        except (Boom, Abort):
+            raised = True
+        except Exception as e:
+            raise Div("exception", "ok" if not rec["raised"] else "Boom", "%s: %s" % (type(e).__name__, e))
     if raised != rec["raised"]:
         raise Div("raised", rec["raised"], raised)
     # every frame's time axis equals what it was before (also after a raising callback)
@@ -75,13 +83,13 @@ def check(rec, gname, ordered=False):
     tol = inj.tolerance(gname, cad["F"])
     for i, f in enumerate(frames):
         fr = rec["frames"][i]
-        if fr["offset"] < 0:
+        if not fr["offsets"]:
             want = np.zeros((cad["T"][i], cad["F"]))
         else:
             want = np.array(fr["added"], dtype=float) / rec["den"]
         if f.data.shape != want.shape or np.max(np.abs(f.data - want)) > tol * max(1.0, float(np.max(np.abs(want)))):
             bad = np.unravel_index(int(np.argmax(np.abs(f.data - want))), want.shape)
-            raise Div("frame_data[%d]" % i, {"offset_rows": fr["offset"], "pixel": [int(bad[0]), int(bad[1])], "value": float(want[bad])},
+            raise Div("frame_data[%d]" % i, {"offset_rows": fr["offsets"], "pixel": [int(bad[0]), int(bad[1])], "value": float(want[bad])},
                       {"value": float(f.data[bad])})
     # consolidation concatenates data in order with absolute times
     cf = c.consolidate()
